@@ -52,7 +52,9 @@ pub fn eval(ctx: &mut Context, line: &str) -> Result<QueryReply, QueryError> {
     let mut iter = text_query::TokenIterator::new(line.trim()).peekable();
     let expr = text_query::parse_query(&mut iter);
     let res = ctx.eval_query(&expr)?;
-    if ctx.save_previous_result {
+    // Only the result of a plain expression becomes `ans`: a conversion
+    // leaves it alone, even one whose target was left empty (`5 m ->`).
+    if ctx.save_previous_result && matches!(expr, crate::ast::Query::Expr(_)) {
         let raw = match res {
             QueryReply::Number(ref number_parts) => number_parts.raw_value.as_ref(),
             // Results with the dimension of time are shown broken down
